@@ -1698,6 +1698,12 @@ class Interp:
                     tgt = self.load(st, a.cell, a.path)
                     if isinstance(tgt, Sym) and split_generics(tgt.ty or '')[0] not in self.stable_mut_types:
                         self.store(st, a.cell, a.path, Sym(('post', name, ai, self.to_term(st, tgt)), tgt.ty))
+                    elif isinstance(tgt, ListV):
+                        # a vector under construction handed to an uninterpreted callee: afterwards it is whatever the callee left
+                        self.store(st, a.cell, a.path, Sym(('post', name, ai, self.to_term(st, tgt)), 'std::vec::Vec<?>'))
+                    elif isinstance(tgt, tuple) and not T.is_int(tgt) and not T.is_bool(tgt) or (isinstance(tgt, tuple) and (T.is_int(tgt) or T.is_bool(tgt))):
+                        ty_ = T.TYPES.get(tgt) or ('bool' if T.is_bool(tgt) else None)
+                        self.store(st, a.cell, a.path, T.typed(('post', name, ai, tgt), ty_))
         # &mut arguments of unknown callees are havocked
         if havoc_mut:
             for a in args:
